@@ -1,6 +1,3 @@
 #!/bin/sh
-# usage: check.sh <property> <tier>; rebuilds nothing but govc's view of /repo (loaded from source on every run)
-export GOFLAGS=-mod=mod GOPROXY=off GOSUMDB=off GOTOOLCHAIN=local
-cd /verif || exit 2
-[ -x bin/govc ] || (cd govc && go build -o /verif/bin/govc .) || exit 2
-exec bin/govc check -p "$1" -tier "${2:-quick}"
+# usage: check.sh <property> <tier>; everything is rebuilt from /repo's working tree on every run
+exec python3 /verif/check.py "$1" "${2:-quick}"
